@@ -367,6 +367,82 @@ def compare_completion(t, m, exp, defaults, prefix="bounded:C17:", note=""):
     return out
 
 
+# ---------------------------------------------------------------- naming the cause of a failure (keys of known findings are narrow)
+KNOWN_IDEMPOTENCE_CAUSE = "default-block-added-without-its-default-children"
+KNOWN_PATCH_RAISE_CAUSE = "too-many-actions-in-common.default"
+
+
+def idempotence_cause(t, m, m2, rules):
+    """why completing the completed tree m gives m2 != m. The one cause with its own name: every row the second completion adds
+    is a default child of a default row that the FIRST completion added (that block came without its default children)"""
+    added = []
+    lost = []
+
+    def walk(a, b, path):
+        for row in a:
+            if row not in b:
+                lost.append(path + (row,))
+            else:
+                walk(a[row], b[row], path + (row,))
+        for row in b:
+            if row not in a:
+                added.append(path + (row,))
+    walk(m, m2, ())
+    if lost:
+        return "rows-lost"
+    if not added:
+        return "changed"
+    for full in added:
+        path, row = full[:-1], full[-1]
+        if not path:
+            return "adds-root-row"
+        # walk down the own reading of the default table along the path
+        level_rules = rules
+        node_t = t
+        parent_added_default = False
+        for p in path:
+            if node_t is not None and p in node_t:         # an explicit line: the children of the rules it matches apply
+                level_rules = [c for r in level_rules if matches(r.row, p) for c in r.children]
+                node_t = node_t[p]
+                parent_added_default = False
+            else:                                           # not explicit: must be a default row the first completion added
+                own = [r for r in level_rules if not r.ignore and r.row == p]
+                if not own:
+                    return "adds-row-under-unexplained-row"
+                level_rules = [c for r in own for c in r.children]
+                node_t = None
+                parent_added_default = True
+        if not parent_added_default:
+            return "adds-row-under-explicit-line"
+        if row not in [r.row for r in level_rules if not r.ignore]:
+            return "adds-non-default-row"
+    return KNOWN_IDEMPOTENCE_CAUSE
+
+
+def patch_raise_cause(exc, rules):
+    """the known cause: AssertionError `Too many <op> actions for rows [...]` raised by common.default (annet/annlib/rulebook/
+    common.py) where the rows are a value-bearing default row and an explicit row; anything else is named after the exception
+    type and the raising function"""
+    import ast
+    import os
+    import traceback
+    tb = traceback.extract_tb(exc.__traceback__)
+    last = tb[-1] if tb else None
+    where = "%s.%s" % (os.path.splitext(os.path.basename(last.filename))[0], last.name) if last else "unknown"
+    fname = (last.filename if last else "").replace(os.sep, "/")
+    if (isinstance(exc, AssertionError) and fname.endswith("annet/annlib/rulebook/common.py") and last.name == "default"
+            and str(exc).startswith("Too many ")):
+        try:
+            rows = ast.literal_eval(str(exc)[str(exc).index("["):])
+        except Exception:
+            rows = []
+        default_rows = set(r.row for r in _all_rules(rules) if not r.ignore)
+        if any(r in default_rows for r in rows) and any(r not in default_rows for r in rows):
+            return KNOWN_PATCH_RAISE_CAUSE
+        return "too-many-actions-in-common.default-without-a-default-row"
+    return "%s-in-%s" % (type(exc).__name__, where)
+
+
 def check_completion(hwi, t):
     """-> list of (key, text, expected, actual)"""
     c = context(hwi)
@@ -376,7 +452,8 @@ def check_completion(hwi, t):
     # idempotence
     m2 = complete(m, c)
     if plain(m2) != plain(m):
-        out.append(("bounded:C17:not-idempotent", "completing the completed tree adds rows", plain(m), plain(m2)))
+        out.append(("bounded:C17:not-idempotent:" + idempotence_cause(t, m, m2, c["rules"]), "completing the completed tree changes it",
+                    plain(m), plain(m2)))
     return out, m
 
 
@@ -478,7 +555,8 @@ def check_sequence(seq, tree_list):
             out.extend(compare_completion(t, _to_odict(m), expected_completion(t, rules), applicable_defaults(t, rules),
                                           prefix="bounded:C17:seq:", note=note))
             if m2 != m:
-                out.append(("bounded:C17:seq:not-idempotent", "completing the completed tree adds rows" + note, m, m2))
+                out.append(("bounded:C17:seq:not-idempotent:" + idempotence_cause(t, _to_odict(m), _to_odict(m2), rules),
+                            "completing the completed tree changes it" + note, m, m2))
         outs.append(out)
     return outs
 
@@ -529,8 +607,8 @@ def check_pair(hwi, t, u):
         except Exception as e2:
             return [("bounded:C17:raw-patch-exception", "the patch of t and u WITHOUT defaults raises (ill-formed input or an annet defect that "
                      "has nothing to do with defaults)", "a patch", "%s: %s" % (type(e2).__name__, e2))]
-        return [("bounded:C17:patch-raises-with-defaults", "the patch of (t, u) is fine, the patch of the completed trees raises: a default row "
-                 "collides with an explicit row", dict(patch_without_defaults=raw), err)]
+        return [("bounded:C17:patch-raises-with-defaults:" + patch_raise_cause(e, c["rules"]), "the patch of (t, u) is fine, the patch of the "
+                 "completed trees raises", dict(patch_without_defaults=raw), err)]
     cd = common_defaults(t, u, mt, mu)
     if plain(t) == plain(u) and cmds:
         out.append(("bounded:C17:patch-for-equal-configs", "t == u but the patch of the completed trees is not empty", [], cmds))
@@ -661,8 +739,8 @@ def check_gen(hwi, t, u, no_new):
             _, raw = real_patch(copy_tree(t), copy_tree(u_eff), c)
         except Exception as e2:
             return [("bounded:C17:raw-patch-exception", "the patch of t and u WITHOUT defaults raises", "a patch", "%s: %s" % (type(e2).__name__, e2))]
-        return [("bounded:C17:patch-raises-with-defaults", "annet.gen + _diff_and_patch: the patch of (t, u) is fine, with the implicit "
-                 "completion it raises: a default row collides with an explicit row", dict(patch_without_defaults=raw), err)]
+        return [("bounded:C17:patch-raises-with-defaults:" + patch_raise_cause(e, c["rules"]), "annet.gen + _diff_and_patch: the patch of "
+                 "(t, u) is fine, with the implicit completion it raises", dict(patch_without_defaults=raw), err)]
     if plain(old) != plain(mt) or plain(new) != plain(mu):
         out.append(("bounded:C17:gen:completion-differs", "old/new out of _old_new_per_device are not the device text / the generator output "
                     "completed with the defaults (no_new=%s)" % no_new, dict(old=plain(mt), new=plain(mu)), dict(old=plain(old), new=plain(new))))
